@@ -152,3 +152,42 @@ func (pk *PublicKey) VerifVerifyInternal(mp, sigma []byte) error { return pk.ver
 func (par *params) VerifExpandMask(rho [64]byte, mu int) [][]uint32 {
 	return verifVecCoeffs(par.expandMask(rho, mu))
 }
+
+// ---- sampling.go: the rejection samplers and the seed expansions built on them ----
+
+// VerifRejectNTTPoly is Algorithm 30 on the 34-byte XOF input ρ ‖ s ‖ r.
+func VerifRejectNTTPoly(rho [34]byte) []uint32 {
+	p := poly(*rejectNTTPoly(rho))
+	return verifCoeffs(&p)
+}
+
+// VerifRejectBoundedPoly is Algorithm 31 on the 66-byte XOF input ρ′ ‖ IntegerToBytes(r, 2).
+func (par *params) VerifRejectBoundedPoly(rho [66]byte) []uint32 {
+	return verifCoeffs(par.rejectBoundedPoly(rho))
+}
+
+// VerifCoeffFromHalfByte is Algorithm 15.
+func (par *params) VerifCoeffFromHalfByte(b byte) (uint32, bool) {
+	c, ok := par.coeffFromHalfByte(b)
+	return uint32(c), ok
+}
+
+// VerifExpandA is Algorithm 32: result[r][s] are the coefficients of Â[r][s].
+func (par *params) VerifExpandA(rho [32]byte) [][][]uint32 {
+	m := par.expandA(rho)
+	out := make([][][]uint32, len(m))
+	for r := range m {
+		out[r] = make([][]uint32, len(m[r]))
+		for s := range m[r] {
+			p := poly(*m[r][s])
+			out[r][s] = verifCoeffs(&p)
+		}
+	}
+	return out
+}
+
+// VerifExpandS is Algorithm 33.
+func (par *params) VerifExpandS(rho [64]byte) (s1, s2 [][]uint32) {
+	a, b := par.expandS(rho)
+	return verifVecCoeffs(a), verifVecCoeffs(b)
+}
